@@ -5,6 +5,8 @@ and optima must be equal.  These are metamorphic relations; the simulator suppli
 minimisation (said plainly in DESIGN.md 4/C13)."""
 from __future__ import annotations
 
+import os
+
 import copy
 from collections import Counter
 from typing import Optional
@@ -112,10 +114,10 @@ def rewrite(ch: Choices, model: dict, kind: str):
 
 
 def solve(model, cfg, mode, viol, ctx):
-    problem = nucsio.build_problem(model)
-    solver = nucsio.build_solver(problem, cfg)
     CLOCK.set_budget(SOLVER_BUDGET)
     try:
+        problem = nucsio.build_problem(model)
+        solver = nucsio.build_solver(problem, cfg)  # a model that respects the contracts must be accepted
         if mode[0] == "find_all":
             return sorted(tuple(int(x) for x in s) for s in solver.solve())
         r = solver.minimize(mode[1]) if mode[0] == "minimize" else solver.maximize(mode[1])
@@ -133,6 +135,18 @@ def solve(model, cfg, mode, viol, ctx):
 
 
 def run(ch: Choices, focus: str = "C13", params: Optional[dict] = None) -> dict:
+    # the allocator's contents are one more seeded choice of the run (seams.dirty_allocator)
+    if os.environ.get("NUMBA_DISABLE_JIT"):
+        pat = seams.draw_pattern(ch)
+        with seams.dirty_allocator(pat):
+            out = _run(ch, focus, params)
+        if pat is not None:
+            out["faults"]["dirty-allocator"] += 1
+        return out
+    return _run(ch, focus, params)
+
+
+def _run(ch: Choices, focus: str = "C13", params: Optional[dict] = None) -> dict:
     params = params or {}
     known = params.get("known", {})
     seams.install()
